@@ -37,6 +37,10 @@ class Lexer(astutils.Lexer):
             'FALSE':
                 'FALSE',
             'TRUE':
+                'TRUE',
+            'false':
+                'FALSE',
+            'true':
                 'TRUE'}
         self.delimiters = [
             'LPAREN',
